@@ -7,6 +7,7 @@ Registry for viral attribute propagation rules as defined by the VTL 2.2
 in :mod:`vtlengine.ViralPropagation.sql`.
 """
 
+from contextvars import ContextVar
 from dataclasses import dataclass, field
 from typing import Any, Dict, List, Optional
 from vtlengine import _verif
@@ -71,22 +72,25 @@ class ViralPropagationRegistry:
         self._valuedomain_rules.clear()
 
 
-# Module-level accessor for operators to use.
-# The Interpreter sets this at the start of each run() call.
-_current_registry: Optional[ViralPropagationRegistry] = None
+# Accessor for operators to use. The Interpreter sets this at the start of each run() call.
+# Context-local (one value per thread / async task): concurrent API calls must not see each
+# other's viral propagation rules.
+_current_registry: ContextVar[Optional[ViralPropagationRegistry]] = ContextVar(
+    "vtl_viral_propagation_registry", default=None
+)
 
 
 def get_current_registry() -> ViralPropagationRegistry:
     """Get the current viral propagation registry."""
     _verif.yield_point("registry:get")
-    global _current_registry  # noqa: PLW0603
-    if _current_registry is None:
-        _current_registry = ViralPropagationRegistry()
-    return _current_registry
+    registry = _current_registry.get()
+    if registry is None:
+        registry = ViralPropagationRegistry()
+        _current_registry.set(registry)
+    return registry
 
 
 def set_current_registry(registry: ViralPropagationRegistry) -> None:
     """Set the current viral propagation registry (called by Interpreter)."""
     _verif.yield_point("registry:set")
-    global _current_registry  # noqa: PLW0603
-    _current_registry = registry
+    _current_registry.set(registry)
